@@ -124,7 +124,7 @@ def c06_case(draw):
              second_thread=False)
     case = draw(sim_case(o, max_ranks=2))
     all_ranks = [r["rank"] for r in case["ranks"]]
-    mode = draw(st.sampled_from(["all", "none", "one"]))
+    mode = draw(st.sampled_from(["all", "none", "one"] if 0 in all_ranks else ["all", "one"]))  # None means rank 0
     ranks = None if mode == "none" else list(all_ranks) if mode == "all" else [draw(st.sampled_from(all_ranks))]
     streams_present = sorted({r.stream for rd in case["ranks"] for r in complete_rows(rd["events"])
                               if r.stream != -1 and r.cat in KCATS})
